@@ -86,11 +86,13 @@ class Stmt:
                      ('let naïve = "héllo wörld"; info!("%s same line");', 0, 0), ('if x > 1 { info!("%s nested"); }', 0, 0),
                      ('info!("%s PAD Connexion à la base de données refusée, veuillez réessayer plus tard ✓ ✓ ✓ ✓ ✓");', 0, 0),
                      ('/* ü */ info!(a = 1; "%s after a comment");', 1, 0),
+                     ('info!(\n"%s dedented literal in column 1");', 0, 0), ('info!(target: "net",\n"%s dedented after target");', 0, 1),
                      ('info!("%s PAD' + "é" * 60 + '");', 0, 0), ('info!("%s PAD' + "✓" * 45 + '");', 0, 0), ('info!("%s PAD' + "𝄞" * 30 + '");', 0, 0)]
             f, self.has_kvs, self.has_target = forms[s % len(forms)]
             return (f % m).replace("PAD", "x" * (s % 7))
         if k == "B":   # message token (unstructured style)
-            forms = ['info!("[ref: %d] %s text");', 'log::info!("[ref: %d] %s {}", x);', 'info!(target: "net", "[ref: %d] %s text");', 'info!(a = 1; "[ref: %d] %s text");']
+            forms = ['info!("[ref: %d] %s text");', 'log::info!("[ref: %d] %s {}", x);', 'info!(target: "net", "[ref: %d] %s text");', 'info!(a = 1; "[ref: %d] %s text");',
+                     'info!("[ref: %d]: %s text");', 'info!("[ref: %d]%s text");', 'info!("[ref: %d], %s été");']
             return forms[s % len(forms)] % (self.ref, m)
         if k == "C":   # key-value reference (structured style)
             forms = ['info!(ref = %d; "%s text");', 'info!(a = 1, ref = %d; "%s text");', 'info!(target: "net", ref = %d, b = 2; "%s text");', 'log::info!(ref = %d, a = 1; "%s {}", x);', 'info!(user, ref = %d; "%s text");', 'info!(user, peer:?, ref = %d, b = 2; "%s text");',
@@ -100,7 +102,8 @@ class Stmt:
             forms = ['info!(ref = request_id; "%s text");', 'info!(a = 1, ref = other; "%s text");', 'info!(ref = "abc"; "%s text");', 'info!(ref = ids::STARTUP, b = 2; "%s text");']
             return forms[s % len(forms)] % m
         if k == "E":   # decoys
-            forms = ['// info!("%s decoy");', 'other!("%s decoy");', 'let s = "info!(\\"%s decoy\\")";', '/* info!("%s decoy"); */', 'infos!("%s decoy");', 'info!(%s_value);', 'log::warn!("%s decoy");', 'tracing::info!("%s decoy");', 'syslog::info!("%s decoy");']
+            forms = ['// info!("%s decoy");', 'other!("%s decoy");', 'let s = "info!(\\"%s decoy\\")";', '/* info!("%s decoy"); */', 'infos!("%s decoy");', 'info!(%s_value);', 'log::warn!("%s decoy");', 'tracing::info!("%s decoy");', 'syslog::info!("%s decoy");', 'loginfo!("%s decoy");', 'tracingwarn!("%s decoy");',
+                     'info!(target: AUDIT);\n    record(user, "%s decoy");', 'warn!(target: module_path!());\n    other(1, "%s decoy");']
             return forms[s % len(forms)] % m
         if k == "F":   # ignored by directive
             forms = ['// breadlog:ignore\n    info!("%s ignored");', '/* BreadLog:Ignore */\n\n    info!("%s ignored");']
@@ -153,7 +156,7 @@ class Tree:
             self.files["%sf%d.rs" % (rng.choice(dirs), fi)] = (items, rng.random() < 0.2)
         if focus in ("C15", "C04", "C03") or rng.random() < 0.3:
             body = 'fn g() {\n    info!("outofscope text");\n}\n'
-            for name in ("x.RS", "y.rsx", "z.rs.bak", "noext", "a/deep.txt", "rs", "users", "handlers", "x.jrs"):
+            for name in ("x.RS", "y.rsx", "z.rs.bak", "noext", "a/deep.txt", "rs", "users", "handlers", "x.jrs", ".rs", "a/.rs"):
                 self.extra["src/" + name] = body
             self.extra["outside/o.rs"] = body
             self.extra["README.md"] = body
@@ -161,11 +164,17 @@ class Tree:
             self.links["src/linkdir"] = "../outside"
         self.extra["tools/src/decoy.rs"] = 'fn g() {\n    info!("decoy tree text");\n}\n'
         self.extra["ci/src/decoy.rs"] = 'fn g() {\n    info!("decoy tree text");\n}\n'
+        for rel in list(self.files)[:2]:
+            if rng.random() < 0.4:
+                self.extra["src/" + rel + ".tmp"] = 'fn g() {\n    info!("sibling tmp text");\n}\n'
         self.bad = None
         if rng.random() < (0.5 if focus in ("C17", "C05", "C03") else 0.15):
             # an in-scope file that is not UTF-8 (Latin-1 text): must be reported and skipped, byte-identical afterwards, the others processed
             self.bad = "src/%slegacy%d.rs" % (rng.choice(["", "a/", "zz/"]), rng.randrange(3))
-            self.extra[self.bad] = b'// Copyright \xa9 caf\xe9\nfn g() {\n    info!("latin1 text");\n}\n'
+            self.extra[self.bad] = rng.choice([b'// Copyright \xa9 caf\xe9\nfn g() {\n    info!("latin1 text");\n}\n',
+                                               b'fn g() {\n    info!("truncated sequence at the end");\n}\n// caf\xc3',
+                                               b'fn g() {\n    info!("truncated 3-byte sequence at the end");\n}\n// \xe2\x82',
+                                               b'\xff\xfe' + 'fn g() { info!("utf-16"); }\n'.encode("utf-16-le")])
 
     def text(self, rel):
         items, crlf = self.files[rel]
@@ -232,7 +241,7 @@ def snapshot(root):
     return out
 
 
-def run(binp, cfg, check, tmpdir, cwd, timeout=120, pre=None):
+def run(binp, cfg, check, tmpdir, cwd, timeout=40, pre=None):
     env = dict(os.environ, TMPDIR=tmpdir)
     cmd = (pre or []) + [binp, "-c", cfg] + (["--check"] if check else [])
     t0 = time.time()
@@ -312,7 +321,7 @@ def read_ref(new, marker):
         return None, None, None
     start = new.rfind("!(", 0, p)
     seg = new[start:p] if start >= 0 else new[max(0, p - 80):p]
-    m = re.search(r'"\[ref: (\d+)\] $', seg)
+    m = re.search(r'"\[ref: (\d+)\][^"\]]*$', seg)
     kv = re.findall(r"\bref = (\d+)\s*[;,]", seg)
     return (int(m.group(1)) if m else None), [int(x) for x in kv], seg
 
@@ -336,7 +345,8 @@ def gen(rng, focus):
     elif sp.lock_mode == "consistent_far":
         sp.lock = min(U32MAX, mx + 1 + rng.choice([1, 10, 1000]))
     elif sp.lock_mode == "corrupt":
-        sp.lock = rng.choice(["", "not yaml: [", "---\nnext_reference_id: banana\n", "---\nsomething_else: 3\n", "# This file is generated by Breadlog\n"])
+        sp.lock = rng.choice(["", "not yaml: [", "---\nnext_reference_id: banana\n", "---\nsomething_else: 3\n", "# This file is generated by Breadlog\n",
+                              "<<<<<<< HEAD\nnext_reference_id: 41\n=======\nnext_reference_id: 57\n>>>>>>> feature/logging\n" + "# stale note kept by a merge tool\n" * 12 + "TAIL-OF-OLD-LOCK\n"])
     sp.structured_key = sp.structured or rng.random() < 0.5
     sp.layout = rng.choice(["", "", "ci/"])                       # directory of the configuration file, relative to the project root
     sp.invoke = rng.choice(["abs", "abs", "rel_tools", "rel_cfgdir"])   # absolute --config from a foreign directory / relative --config
@@ -450,7 +460,10 @@ def execute(sp, binp, root, idx):
                 if (k.startswith("src/") and k[4:] in tree.files) or k == LOCK:
                     continue
                 if (snap0.get(k) or ())[:2] != (snapf.get(k) or ())[:2]:
-                    ob.bad("C07,C15", "an edit run whose temporary directory %s changed %s" % (desc["temporary_directory"], k))
+                    ob.bad("C07,C15,C08" if k.endswith(".tmp") else "C07,C15", "an edit run whose temporary directory %s changed %s" % (desc["temporary_directory"], k))
+            imf = INSERTED_RE.search(outf)
+            if report_formats()["inserted"] and imf and int(imf.group(1)) != updated:
+                ob.bad("C05", "the edit run (temporary directory %s) prints %s inserted reference(s) but %d token(s) reached the sources" % (desc["temporary_directory"], imf.group(1), updated))
             if inscope and rcf == 0 and updated != M:
                 ob.bad("C08", "the temporary directory %s: %d of %d references were inserted, but the edit run exits 0" % (desc["temporary_directory"], updated, M))
             left = os.listdir(ftmp) if os.path.isdir(ftmp) else []
@@ -558,7 +571,9 @@ def execute(sp, binp, root, idx):
             m = re.search(r"next_reference_id: (\d+)", lk[1].decode("utf-8", "replace"))
             val = int(m.group(1)) if m else None
         if val is None:
-            ob.bad("C16", "use_cache is %s and references were inserted, but there is no readable lock file next to the configuration" % use_cache)
+            ob.bad("C16,C02", "use_cache is %s and references were inserted, but there is no readable lock file next to the configuration" % use_cache)
+        elif isinstance(lock, str) and "TAIL-OF-OLD-LOCK" in lock and "TAIL-OF-OLD-LOCK" in lk[1].decode("utf-8", "replace"):
+            ob.bad("C16,C02", "the unparsable lock file was overwritten in place: the tail of its old content is still there, so the lock stays unparsable")
         elif new_ids and val <= max(new_ids):
             ob.bad("C02", "lock file holds %d after the run, which is not greater than the ID %d just written" % (val, max(new_ids)))
     # ---- check again, edit again ----
@@ -591,11 +606,15 @@ def run_family(pid, tier, seed, n_quick=60, n_thorough=400, only=None):
     found = {}
     evals = 0
     samples = []
+    stopped = None
     try:
         for i in range(n):
             sp = gen(rng, pid)
             if only is not None and i != only:
                 continue
+            if len(found) >= 3 or time.time() - t0 > 300:
+                stopped = "after %d scenarios: %s" % (evals, "3 distinct violations found" if len(found) >= 3 else "time budget of 300 s used")
+                break
             ob = execute(sp, b["bin"], root, i)
             evals += 1
             if len(samples) < 2:
@@ -621,6 +640,8 @@ def run_family(pid, tier, seed, n_quick=60, n_thorough=400, only=None):
                         "files and symlinks), x style x use_cache (omitted/true/false) x lock (absent/consistent/ahead/corrupt); each run through --check, edit, --check, edit "
                         "from a foreign or relative working directory with a private TMPDIR (usable / missing / on another filesystem); compared with a reference model of the generated tree",
                 "samples": samples, "wall_s": round(time.time() - t0, 1)})
+    if stopped:
+        res["stopped_early"] = stopped
     return res
 
 
